@@ -161,7 +161,11 @@ func (r *Replayer) build(pkg string) (string, error) {
 	add(filepath.Join(r.repo, pkg, "zz_verif_replay_test.go"), []byte(strings.Replace(replayTestSrc, "package PKG", "package "+pkg, 1)))
 	add(filepath.Join(r.repo, pkg, "zz_verif_table.go"), []byte(harnessTable(pkg, hfiles)))
 	// clock redirection: generated from the current sources at replay time
+	// (package cron replays against the real clock: its timers are real)
 	srcs, _ := filepath.Glob(filepath.Join(r.repo, pkg, "*.go"))
+	if pkg == "cron" {
+		srcs = nil
+	}
 	for _, f := range srcs {
 		if strings.HasSuffix(f, "_test.go") {
 			continue
